@@ -782,7 +782,116 @@ fn sequential(s: &mut Sink) {
             }
         }
     }
-    s.done("sequential: width x alignment x addend x pointer register x engine");
+    // the same on the interpreter for words on the eBPF stack and in registered allowed memory
+    for width in [4u8, 8] {
+        for preg in [1u8, 6, 9] {
+            for a in [1u64, 0xffff_ffff, 0x8000_0000_0000_0001] {
+                let vreg = if preg == 2 { 3 } else { 2 };
+                let opc = if width == 4 { 0xc3 } else { 0xdb };
+                // stack: the buffer's own alignment is not specified, so count: of the 8 addresses
+                // [r10-24+k], k = 0..8, exactly 8/width are naturally aligned
+                let mut oks = 0;
+                let mut outcomes = vec![];
+                for k in 0..8i32 {
+                    let mut prog = isa::lddw(3, 0x0102_0304_0506_0708).to_vec();
+                    prog.push(isa::stxdw(10, -24, 3));
+                    prog.push(isa::stxdw(10, -16, 3));
+                    prog.push(isa::stxdw(10, -8, 3));
+                    prog.push(isa::mov64r(preg, 10));
+                    prog.push(isa::add64i(preg, -24 + k));
+                    prog.extend(isa::lddw(vreg, a));
+                    prog.push(I::new(opc, preg, vreg, 0, 0));
+                    prog.push(isa::mov64i(0, 0));
+                    prog.push(isa::EXIT);
+                    let bytes = isa::enc(&prog);
+                    s.count("evaluations", 1);
+                    s.count("states", 1);
+                    s.count("transitions", 1);
+                    s.count("traces_validated_against_impl", 1);
+                    s.count("distinct_nontrivial", 1);
+                    let end = in_child(20, || {
+                        let mut vmx = match AnyVm::new(VmKind::NoData, Some(&bytes)) { Ok(v) => v, Err(e) => return format!("L{e}").into_bytes() };
+                        match vmx.exec(Eng::Interp, crate::vm::empty_raw(), crate::vm::empty_raw()) {
+                            Ok(_) => b"O".to_vec(),
+                            Err(e) => format!("E{e}").into_bytes(),
+                        }
+                    });
+                    let o = match end {
+                        ChildEnd::Ok(b) => String::from_utf8_lossy(&b[..1.min(b.len())]).to_string(),
+                        ChildEnd::Signal(sig) => format!("S{}", signame(sig)),
+                        ChildEnd::Exit(c) => format!("X{c}"),
+                    };
+                    if o == "O" {
+                        oks += 1;
+                    }
+                    outcomes.push(o);
+                }
+                let want = 8 / width as usize;
+                let rp = json!({"kind":"xadd-seq","region":"stack","width":width,"preg":preg,"addend":format!("{a:#x}")});
+                if outcomes.iter().any(|o| o != "O" && o != "E") {
+                    s.violation(&format!("interp/xadd{}@stack/failed", if width == 4 { "w" } else { "dw" }), format!("outcomes for [r10-24+k], k=0..8: {outcomes:?} (O = Ok, E = Err)"), rp);
+                } else if oks != want {
+                    s.violation(&format!("interp/xadd{}@stack/misaligned-add-accepted", if width == 4 { "w" } else { "dw" }), format!("{oks} of the 8 consecutive addresses [r10-24+k] were accepted; exactly {want} are naturally aligned (outcomes {outcomes:?})"), rp);
+                }
+                // registered allowed memory
+                for align in 0..8usize {
+                    let buf = Buf::new(64, 0);
+                    let mut initb = vec![0x5au8; 64];
+                    let woff = 24 + align;
+                    let initv: u64 = 0x0102_0304_0506_0708;
+                    initb[woff..woff + width as usize].copy_from_slice(&initv.to_le_bytes()[..width as usize]);
+                    buf.fill(&initb);
+                    let aligned = align % width as usize == 0;
+                    let mut prog = isa::lddw(preg, buf.addr() + woff as u64).to_vec();
+                    prog.extend(isa::lddw(vreg, a));
+                    prog.push(I::new(opc, preg, vreg, 0, 0));
+                    prog.push(isa::mov64i(0, 0));
+                    prog.push(isa::EXIT);
+                    let bytes = isa::enc(&prog);
+                    let class = format!("xadd{}@allowed-align{}", if width == 4 { "w" } else { "dw" }, align % width as usize);
+                    let rp = json!({"kind":"xadd-seq","region":"allowed","width":width,"align":align,"preg":preg,"addend":format!("{a:#x}")});
+                    s.count("evaluations", 1);
+                    s.count("states", 1);
+                    s.count("transitions", 1);
+                    s.count("traces_validated_against_impl", 1);
+                    s.count("distinct_nontrivial", 1);
+                    let (st, en) = (buf.addr(), buf.addr() + 64);
+                    let end = in_child(20, || {
+                        let mut vmx = match AnyVm::new(VmKind::NoData, Some(&bytes)) { Ok(v) => v, Err(e) => return format!("L{e}").into_bytes() };
+                        vmx.register_allowed_memory(st..en);
+                        match vmx.exec(Eng::Interp, crate::vm::empty_raw(), crate::vm::empty_raw()) {
+                            Ok(_) => b"O".to_vec(),
+                            Err(e) => format!("E{e}").into_bytes(),
+                        }
+                    });
+                    let after = buf.bytes().to_vec();
+                    let o = match end {
+                        ChildEnd::Ok(b) => String::from_utf8_lossy(&b[..1.min(b.len())]).to_string(),
+                        ChildEnd::Signal(sig) => format!("S{}", signame(sig)),
+                        ChildEnd::Exit(c) => format!("X{c}"),
+                    };
+                    let mut want = initb.clone();
+                    if aligned {
+                        let sum = if width == 4 { (initv as u32).wrapping_add(a as u32) as u64 } else { initv.wrapping_add(a) };
+                        want[woff..woff + width as usize].copy_from_slice(&sum.to_le_bytes()[..width as usize]);
+                        if o != "O" {
+                            s.violation(&format!("interp/{class}/failed"), format!("aligned atomic add in registered memory failed ({o})"), rp.clone());
+                        } else if after != want {
+                            s.violation(&format!("interp/{class}/wrong-memory-effect"), format!("after adding {a:#x}: word bytes {} expected {}", hex(&after[woff..woff + 8]), hex(&want[woff..woff + 8])), rp.clone());
+                        }
+                    } else {
+                        if o != "E" {
+                            s.violation(&format!("interp/{class}/misaligned-add-accepted"), format!("a misaligned atomic add in registered memory gave {o}"), rp.clone());
+                        }
+                        if after != initb {
+                            s.violation(&format!("interp/{class}/misaligned-add-changed-memory"), "memory changed although the add was refused".into(), rp.clone());
+                        }
+                    }
+                }
+            }
+        }
+    }
+    s.done("sequential: width x alignment x addend x pointer register x engine; interpreter also on the stack and in registered memory");
 }
 
 fn configs(thorough: bool) -> Vec<Cfg> {
